@@ -225,7 +225,7 @@ class C05(PropertyCheck):
         # malformed
         for c in self.malformed():
             yield c
-        n_b, n_c, n_d = (240, 240, 240) if tier == "quick" else (3000, 3000, 3000) if tier == "thorough" else (6000, 6000, 5000)
+        n_b, n_c, n_d = (150, 150, 150) if tier == "quick" else (3000, 3000, 3000) if tier == "thorough" else (6000, 6000, 5000)
         gens = [self.gen_module_exact(rng, n_b), self.gen_advance(rng, n_c), self.gen_tol(rng, n_d)]
         # interleave
         alive = list(gens)
